@@ -3600,6 +3600,16 @@ class QuicConnection:
             )
         )
         previous_send_highest = stream.sender.highest_offset
+
+        # Do not ask the sender for a frame unless its header fits: a FIN-only
+        # frame is returned whatever the size limit is, and would be lost for
+        # good when start_frame() then refuses it.
+        if (
+            builder.remaining_flight_space < frame_overhead
+            or builder.remaining_buffer_space < frame_overhead
+        ):
+            raise QuicPacketBuilderStop
+
         frame = stream.sender.get_frame(
             builder.remaining_flight_space - frame_overhead, max_offset
         )
